@@ -614,6 +614,7 @@ func main() {
 	if _, err := os.Stat(filepath.Join(gobin, "go")); err == nil {
 		// the toolchain this generator was built with (go1.24 from the module cache): go/packages shells out to `go list`
 		path = gobin + string(os.PathListSeparator) + path
+		os.Setenv("PATH", path) // exec.LookPath("go") uses this process's PATH
 		kept = append(kept, "GOTOOLCHAIN=local")
 	} else {
 		kept = append(kept, "GOTOOLCHAIN=auto")
